@@ -55,6 +55,22 @@ func VerifC08Index() {
 		want = "[" + c11Items[n] + "]"
 	}
 	nd.Assert(out == want, "index-reference")
+	// unsigned indices over their whole range: beyond the length (2^63 and above included) is nil
+	u := nd.Uint64()
+	var uv any = u
+	switch nd.Choice(3) {
+	case 1:
+		uv = uint(u)
+	case 2:
+		uv = uintptr(u)
+	}
+	out, err = vRender("[{{ a[i] }}]", Bindings{"a": a, "i": uv})
+	nd.Assert(err == nil, "unsigned-index-no-error")
+	want = "[]"
+	if u < uint64(l) {
+		want = "[" + c11Items[int(u)] + "]"
+	}
+	nd.Assert(out == want, "unsigned-index-reference")
 	out, err = vRender("{{ a.first }},{{ a.last }},{{ a.size }},{{ a | size }}", Bindings{"a": a})
 	nd.Assert(err == nil, "first-last-no-error")
 	f, la := "", ""
